@@ -5,3 +5,4 @@ import PromqlVerif.Kernels
 import PromqlVerif.Sem
 import PromqlVerif.Run
 import PromqlVerif.Proto
+import PromqlVerif.Eng
